@@ -252,7 +252,7 @@ def main(argv=None) -> int:
                                                 'instantiate', 'pop', 'save', 'load', 'publish', 'next')]
     last2 = run_bfs(chk, macro + rules, 4 if thorough else 3, caps, agg, 'macro')
     # non-initial start: the proof phase after a gamma phase with two axioms and the declared claims published
-    seed = ('pattern (phi0 -> phi0)', 'publish', 'pattern (a -> b)', 'publish', 'next phase',
+    seed = ('pattern (phi0 -> phi0)', 'publish', 'pattern (1 -> a)', 'publish', 'next phase',
             'pattern (∃ x0 . x0)', 'publish', 'pattern (phi0 -> phi0)', 'publish', 'next phase')
     last3 = run_bfs(chk, raw, 4 if thorough else 3, (5, 4, 14), agg, 'proof-phase-seed/raw', seeds=(seed,))
     last4 = run_bfs(chk, macro + rules, 3 if thorough else 2, (5, 4, 14), agg, 'proof-phase-seed/macro', seeds=(seed,))
